@@ -163,6 +163,47 @@ static inline void mtGenerate(Rng &r, Plan &p, bool thorough, bool racePhase)
     else if(r.chance(0.15)) { static const int pairs[6][2] = { { 1, 8 }, { 8, 1 }, { 0, 5 }, { 5, 0 }, { 3, 6 }, { 6, 3 } }; int k = (int)r.below(6); emu[0] = pairs[k][0]; emu[1] = pairs[k][1]; } // sibling cores sharing one code base
     p.cfg["emu0"] = emu[0]; p.cfg["emu1"] = emu[1];
     std::vector<std::vector<Op> > hist((size_t)nTasks);
+    // One run in seven is a directed scenario: every task on the same core, chips running at different rates side by side
+    // (run-at-PCM-rate / chip family / sample rate differ per task), the observer only pokes settings that write chip
+    // registers without re-creating its chips (LFO, volume model, pan law) and plays, while the others keep re-creating theirs.
+    if(r.chance(0.15))
+    {
+        static const int fastCores[6] = { 0, 2, 3, 4, 5, 6 };
+        int core = fastCores[r.below(6)]; p.cfg["emu0"] = core; p.cfg["emu1"] = core; p.cfg["scenario"] = 1;
+        for(int t = 0; t < nTasks; ++t)
+        {
+            std::vector<Op> &h = hist[(size_t)t];
+            long rate = (long)r.pick<int>({ 8000, 22050, 44100, 48000 });
+            h.push_back(Op(A_INIT, rate)); h.push_back(Op(A_OPEN_BANK_DATA, (int64_t)r.below(2))); h.push_back(Op(A_SWITCH_EMULATOR, core)); h.push_back(Op(A_SET_NUM_CHIPS, (int64_t)r.range(1, 2)));
+            if(t == 0 ? r.chance(0.2) : r.chance(0.7)) h.push_back(Op(A_SET_RUN_AT_PCM_RATE, 1));
+            if(r.chance(0.4)) h.push_back(Op(A_SET_CHIP_TYPE, (int64_t)r.below(2)));
+            int len = (int)r.range(8, 18);
+            for(int i = 0; i < len; ++i)
+            {
+                Op o; o.inst = 0;
+                if(t == 0) o.kind = (int)r.pick<int>({ A_SET_LFO_ENABLED, A_SET_LFO_FREQ, A_SET_LFO_FREQ, A_SET_VOLUME_MODEL, A_SET_SOFT_PAN, A_NOTE_ON, A_NOTE_ON, A_NOTE_OFF, A_GENERATE, A_GENERATE, A_CONTROLLER, A_PATCH, A_PITCH_BEND });
+                else o.kind = (int)r.pick<int>({ A_RESET, A_SWITCH_EMULATOR, A_SET_NUM_CHIPS, A_SET_RUN_AT_PCM_RATE, A_SET_CHIP_TYPE, A_OPEN_BANK_DATA, A_NOTE_ON, A_GENERATE, A_SET_LFO_FREQ });
+                switch(o.kind)
+                {
+                case A_SET_LFO_ENABLED: o.a[0] = r.chance(0.8); break;
+                case A_SET_LFO_FREQ: o.a[0] = (int64_t)r.range(0, 7); break;
+                case A_SET_VOLUME_MODEL: o.a[0] = (int64_t)r.range(0, 5); break;
+                case A_SET_SOFT_PAN: case A_SET_RUN_AT_PCM_RATE: case A_SET_CHIP_TYPE: case A_OPEN_BANK_DATA: o.a[0] = (int64_t)r.below(2); break;
+                case A_NOTE_ON: o.a[0] = (int64_t)r.below(4); o.a[1] = (int64_t)r.range(40, 80); o.a[2] = (int64_t)r.range(80, 127); break;
+                case A_NOTE_OFF: o.a[0] = (int64_t)r.below(4); o.a[1] = (int64_t)r.range(40, 80); break;
+                case A_CONTROLLER: o.a[0] = (int64_t)r.below(4); o.a[1] = r.pick<int>({ 7, 10, 11, 1 }); o.a[2] = (int64_t)r.below(128); break;
+                case A_PATCH: o.a[0] = (int64_t)r.below(4); o.a[1] = (int64_t)r.below(128); break;
+                case A_PITCH_BEND: o.a[0] = (int64_t)r.below(4); o.a[1] = (int64_t)r.below(16384); break;
+                case A_GENERATE: o.a[0] = racePhase ? 64 : (int64_t)r.pick<int>({ 512, 1024, 2048 }); break;
+                case A_SWITCH_EMULATOR: o.a[0] = core; break;
+                case A_SET_NUM_CHIPS: o.a[0] = (int64_t)r.range(1, 2); break;
+                default: break;
+                }
+                h.push_back(o);
+            }
+        }
+    }
+    else
     for(int t = 0; t < nTasks; ++t)
     {
         std::vector<Op> &h = hist[(size_t)t];
@@ -172,10 +213,11 @@ static inline void mtGenerate(Rng &r, Plan &p, bool thorough, bool racePhase)
         h.push_back(Op(A_OPEN_BANK_DATA, (int64_t)r.below(2)));
         h.push_back(Op(A_SWITCH_EMULATOR, emu[(size_t)t]));
         h.push_back(Op(A_SET_NUM_CHIPS, (int64_t)r.range(1, slow ? 1 : 3)));
+        if(!slow && r.chance(0.3)) h.push_back(Op(A_SET_RUN_AT_PCM_RATE, 1));   // chips of one core running at different rates side by side: rate-derived tables must be per chip
         int len = (int)r.range(6, thorough ? 40 : (racePhase ? 14 : 22));
         for(int i = 0; i < len; ++i)
         {
-            Op o; o.kind = (int)r.pick<int>({ A_NOTE_ON, A_NOTE_ON, A_NOTE_ON, A_NOTE_OFF, A_CONTROLLER, A_GENERATE, A_GENERATE, A_GENERATE, A_PLAY, A_TICK_EVENTS, A_OPEN_DATA, A_RESET, A_SWITCH_EMULATOR, A_CLOSE, A_INIT, A_OPEN_BANK_DATA, A_GETTERS, A_SET_CHIP_TYPE, A_SET_RUN_AT_PCM_RATE, A_PITCH_BEND, (int)MT_NULLDEV });
+            Op o; o.kind = (int)r.pick<int>({ A_NOTE_ON, A_NOTE_ON, A_NOTE_ON, A_NOTE_OFF, A_CONTROLLER, A_GENERATE, A_GENERATE, A_GENERATE, A_PLAY, A_TICK_EVENTS, A_OPEN_DATA, A_RESET, A_SWITCH_EMULATOR, A_CLOSE, A_INIT, A_OPEN_BANK_DATA, A_GETTERS, A_SET_CHIP_TYPE, A_SET_RUN_AT_PCM_RATE, A_PITCH_BEND, (int)MT_NULLDEV, A_SET_LFO_ENABLED, A_SET_LFO_FREQ });
             // one op in five is a setting or transport call that touches an existing chip/sequencer without re-creating it
             if(r.chance(0.2)) o.kind = (int)r.pick<int>({ A_SET_LFO_ENABLED, A_SET_LFO_FREQ, A_SET_LFO_ENABLED, A_SET_LFO_FREQ, A_SET_VOLUME_MODEL, A_SET_SOFT_PAN, A_SET_SCALE_MOD, A_SET_FULL_BRIGHT, A_SET_AUTO_ARP,
                                                       A_SET_CHAN_ALLOC, A_PATCH, A_PANIC, A_SEEK, A_REWIND, A_SET_TEMPO, A_SYSEX, A_BANK_MSB, A_BANK_LSB, A_SET_LOOP_ENABLED, A_SELECT_SONG, A_RT_RESET_STATE, A_CHAN_AFTERTOUCH });
